@@ -196,6 +196,12 @@ static void adversary_nm(unsigned long long& unit, Stats& st)
 					if(iv == e.memo.end() || !mc::same_bits(iv->second, M.y[i])) viol("vertex_values_stale", "y[" + std::to_string(i) + "] is not the objective at current_simplex[" + std::to_string(i) + "]");
 					if(!(M.y[0] <= M.y[i])) viol("simplex_not_best_first", "y[0] > y[" + std::to_string(i) + "]");
 				}
+				{
+					// the documented stopping rule: a normal return means the vertex values agree within the fractional tolerance
+					double hi = *std::max_element(M.y.begin(), M.y.end()), lo = *std::min_element(M.y.begin(), M.y.end());
+					double rt = 2 * std::fabs(hi - lo) / (std::fabs(hi) + std::fabs(lo) + 1e-10);
+					if(!(rt <= c.ftol * 1.0000001)) viol("returned_before_the_fractional_tolerance_was_met", "vertex values from " + mc::dec(lo) + " to " + mc::dec(hi) + ": fractional range " + mc::dec(rt) + " > ftol " + mc::dec(c.ftol));
+				}
 				if(M.nfunc != (int)e.order.size() - (nd + 1)) viol("nfunc_wrong", "nfunc=" + std::to_string(M.nfunc) + " but " + std::to_string(e.order.size() - nd - 1) + " evaluations after the initial simplex");
 			}
 			sched = e.sched;
@@ -364,6 +370,11 @@ static void bowls(unsigned long long& unit, Stats& st)
 									if(!(M4.fmin <= (double)worst)) mc::violation("bowls", "bowls|" + ck + "|worse_than_start", "fmin exceeds the best documented initial vertex (unequal deltas)", g_current);
 								}
 							}
+							{
+								double hi = *std::max_element(M1.y.begin(), M1.y.end()), lo = *std::min_element(M1.y.begin(), M1.y.end());
+								double rt = 2 * std::fabs(hi - lo) / (std::fabs(hi) + std::fabs(lo) + 1e-10);
+								if(!(rt <= ftol * 1.0000001)) mc::violation("bowls", "bowls|" + ck + "|returned_before_the_fractional_tolerance_was_met", "vertex values from " + mc::dec(lo) + " to " + mc::dec(hi) + ": fractional range " + mc::dec(rt) + " > ftol " + mc::dec(ftol), g_current);
+							}
 							if(!mc::same_bits(M1.fmin, f(r1))) mc::violation("bowls", "bowls|" + ck + "|reported_fmin_wrong", "fmin is not the objective at the returned point", g_current);
 							if(!(M1.fmin <= f(start))) mc::violation("bowls", "bowls|" + ck + "|worse_than_start", "fmin exceeds the objective at the starting point", g_current);
 						}
@@ -374,6 +385,61 @@ static void bowls(unsigned long long& unit, Stats& st)
 }
 
 // ---- call histories: a minimisation does not depend on the minimisations made before it ------------------------------------------------
+// ---- symmetric bowls from representable starts: exact ties between vertex values are the rule here, and the optimum value may be negative ------
+static void lattice_bowls(unsigned long long& unit, Stats& st)
+{
+	long long cases = 0;
+	for(int d = 2; d <= 3; d++)
+		for(int wk = 0; wk < 2; wk++)	// weights 1,1,1 or 1,2,3
+			for(double off : {0.0, -2.5, -1000.0})
+				for(double delta : {0.5, 1.0, 2.0})
+				{
+					if(!mc::mine(unit++)) continue;
+					int side = 9, total = 1;
+					for(int i = 0; i < d; i++) total *= side;
+					for(int code = 0; code < total; code++)
+					{
+						Vec start(d);
+						int c = code;
+						for(int i = 0; i < d; i++) { start[i] = -2.0 + 0.5 * (c % side); c /= side; }
+						int n = 0;
+						auto f = [&](const Vec& x) { double s = off; for(int i = 0; i < d; i++) s += (wk ? 1 + i : 1) * x[i] * x[i]; return s; };
+						std::function<double(Vec)> fn = [&](Vec x) { n++; return f(x); };
+						const double ftol = 1e-8;
+						Minimization M(ftol);
+						Vec s0 = start, r;
+						std::string ck = "lattice,d=" + std::to_string(d) + ",weights=" + std::to_string(wk) + ",off=" + mc::dec(off) + ",delta=" + mc::dec(delta) + ",start=" + mc::decv(start);
+						g_current = ck;
+						if(mc::library_exits([&]() { r = M.minimize(s0, delta, fn); }))
+						{
+							mc::violation("bowls", "bowls|" + ck + "|valid_request_terminated_process", "the library called exit() on a strictly convex quadratic bowl (" + std::to_string(n) + " evaluations)", g_current);
+							continue;
+						}
+						cases++;
+						st.evals += n;
+						ld dist = 0;
+						for(int i = 0; i < d; i++) dist += (ld)r[i] * r[i];
+						dist = sqrtl(dist);
+						ld bound = sqrtl(20 * (ld)ftol * (fabsl((ld)off) + 1e-10L) / 1.0L);
+						double best0 = f(start);
+						for(int i = 0; i < d; i++) { Vec v = start; v[i] += delta; best0 = std::min(best0, f(v)); }
+						if(!(M.fmin <= best0)) mc::violation("bowls", "bowls|" + ck + "|worse_than_start", "fmin " + mc::dec(M.fmin) + " exceeds the best initial vertex " + mc::dec(best0) + " after " + std::to_string(M.nfunc) + " evaluations", g_current);
+						if(!mc::same_bits(M.fmin, f(r))) mc::violation("bowls", "bowls|" + ck + "|reported_fmin_wrong", "fmin is not the objective at the returned point", g_current);
+						// the documented stopping rule: on return the vertex values agree within the fractional tolerance ftol
+						// (the distance clause is decided in bowls(); from lattice starts the recorded Nelder-Mead finding - the rule is met by
+						// simplices that straddle a level set - shows on about 1 % of the starts and is not listed input by input)
+						{
+							double hi = *std::max_element(M.y.begin(), M.y.end()), lo = *std::min_element(M.y.begin(), M.y.end());
+							double rt = 2 * std::fabs(hi - lo) / (std::fabs(hi) + std::fabs(lo) + 1e-10);
+							if(!(rt <= ftol * 1.0000001)) mc::violation("bowls", "bowls|" + ck + "|returned_before_the_fractional_tolerance_was_met", "returned after " + std::to_string(M.nfunc) + " evaluations with vertex values from " + mc::dec(lo) + " to " + mc::dec(hi) + ": fractional range " + mc::dec(rt) + " > ftol " + mc::dec(ftol), g_current);
+						}
+					}
+				}
+	mc::count("lattice_bowl_cases", cases);
+	mc::count("distinct_nontrivial", cases);
+	st.execs += cases;
+}
+
 static void histories(unsigned long long& unit)
 {
 	std::vector<mc::PureLetter> L;
@@ -420,6 +486,7 @@ int main(int argc, char** argv)
 	adversary_nm(unit, st);
 	families_1d(unit, st);
 	bowls(unit, st);
+	lattice_bowls(unit, st);
 	histories(unit);
 	mc::count("executions", st.execs);
 	mc::count("evaluations", st.execs);
